@@ -25,6 +25,8 @@ import traceback
 
 VERIF = os.path.dirname(os.path.dirname(os.path.abspath(__file__)))
 NPROC = int(os.environ.get("VERIF_JOBS", "16"))
+# runs against scratch trees (bin/mutant) must not overwrite the evidence of /repo
+OUT = "/tmp/verif-scratch-out" if os.environ.get("VERIF_NO_EVIDENCE") else VERIF
 
 
 class Result:
@@ -230,14 +232,14 @@ def finish(mod, tier, seed, t0, tot, nontrivial, outcomes, violations, samples, 
             fresh.setdefault(v["key"], v)
     for k, v in sorted(suppressed.items()):
         print("KNOWN-FINDING: property=%s %s [%s]" % (prop, known[k].get("what", ""), k))
-    os.makedirs(os.path.join(VERIF, "replays", prop), exist_ok=True)
+    os.makedirs(os.path.join(OUT, "replays", prop), exist_ok=True)
     head = compat.repo_head()
     shown = 0
     for k, v in sorted(fresh.items()):
         rec = dict(property=prop, key=k, what=v["what"], case=v.get("case"),
                    expected=v.get("expected"), observed=v.get("observed"), repo_head=head)
         dig = _h(json.dumps(rec.get("case"), sort_keys=True, default=str) + k)
-        path = os.path.join(VERIF, "replays", prop, dig + ".json")
+        path = os.path.join(OUT, "replays", prop, dig + ".json")
         with open(path, "w") as f:
             json.dump(rec, f, indent=1, default=str)
         if shown < 25:
@@ -281,8 +283,8 @@ def finish(mod, tier, seed, t0, tot, nontrivial, outcomes, violations, samples, 
         wall_s=round(time.time() - t0, 2),
         violations=len(fresh),
     )
-    os.makedirs(os.path.join(VERIF, "evidence"), exist_ok=True)
-    evp = os.path.join(VERIF, "evidence", prop + ".json")
+    os.makedirs(os.path.join(OUT, "evidence"), exist_ok=True)
+    evp = os.path.join(OUT, "evidence", prop + ".json")
     with open(evp, "w") as f:
         json.dump(ev, f, indent=1, default=str)
     print("%s tier=%s seed=%s cases=%d evaluations=%d nontrivial=%d states=%d transitions=%d "
